@@ -255,6 +255,46 @@ func VerifC04DefaultsAllKinds() {
 	vapi.Reach("c04-defaults-allkinds")
 }
 
+// VerifC04NestedDefaults: nested structs (member, optional member, vector elements) whose own
+// optional members are ALL absent - an empty body on the wire, StructBegin directly followed by
+// StructEnd - or absent except one: probing for absent optionals (tag 0 in particular) inside a
+// nested body must stop at its StructEnd and leave the defaults in place.
+func c04NestedOpts(name string) Opts {
+	var o Opts
+	o.ResetDefault()
+	switch vapi.Choice(name, 3) {
+	case 1:
+		o.A = symI32(name+"a", false)
+	case 2:
+		o.Bt = vapi.Int8(name + "bt")
+	}
+	return o
+}
+
+func c04OptsEq(a, b Opts) bool {
+	return vapi.And(a.A == b.A, vapi.And(a.S == b.S, vapi.And(a.B == b.B, vapi.And(a.L == b.L, vapi.And(a.C == b.C, vapi.And(a.Hi == b.Hi, a.Bt == b.Bt))))))
+}
+
+func VerifC04NestedDefaults() {
+	v := Holder{O: c04NestedOpts("o"), Oo: c04NestedOpts("oo")}
+	for i, n := 0, vapi.Len("nvo", 2); i < n; i++ {
+		v.Vo = append(v.Vo, c04NestedOpts("vo"))
+	}
+	var got Holder
+	// a reused target with stale nested content
+	got.O.A, got.Oo.Bt = vapi.Int32("stalea"), vapi.Int8("stalebt")
+	vapi.Check(got.ReadFrom(codec.NewReader(encode(&v))) == nil, "nested defaults: decoding succeeds")
+	eq := vapi.And(c04OptsEq(got.O, v.O), c04OptsEq(got.Oo, v.Oo))
+	eq = vapi.And(eq, len(got.Vo) == len(v.Vo))
+	for i := range v.Vo {
+		if i < len(got.Vo) {
+			eq = vapi.And(eq, c04OptsEq(got.Vo[i], v.Vo[i]))
+		}
+	}
+	vapi.Check(eq, "nested defaults: absent optionals of nested structs keep their IDL defaults, present ones are decoded")
+	vapi.Reach("c04-nested-defaults")
+}
+
 // VerifC04Required: an encoding lacking a required member is rejected.
 func VerifC04Required() {
 	b := codec.NewBuffer()
